@@ -361,11 +361,14 @@ func TestC20(t *testing.T) {
 			t.Fatalf("LoadDatabase reports %d tables %d views, model has %d and %d", nt, nv, len(m.tables), len(m.views))
 		}
 		got, err := openDump(path("loaded.db"), true, true)
-		if err != nil {
+		if err != nil && got == "" {
 			t.Fatalf("loaded database: %v", err)
 		}
 		if got != want {
 			t.Fatalf("loaded database differs from the original: %s\n--- loaded\n%.3000s--- model\n%.3000s", diffHint(got, want), got, want)
+		}
+		if err != nil {
+			t.Fatalf("loaded database: %v", err)
 		}
 
 		// --- compact a copy
@@ -386,11 +389,14 @@ func TestC20(t *testing.T) {
 			t.Fatalf("Compact reports %d tables %d views, model has %d and %d", nt, nv, len(m.tables), len(m.views))
 		}
 		got, err = openDump(path("comp.db"), true, true)
-		if err != nil {
+		if err != nil && got == "" {
 			t.Fatalf("compacted database: %v", err)
 		}
 		if got != want {
 			t.Fatalf("compacted database differs from the original: %s\n--- compacted\n%.3000s--- model\n%.3000s", diffHint(got, want), got, want)
+		}
+		if err != nil {
+			t.Fatalf("compacted database: %v", err)
 		}
 
 		// --- per table load into an empty database
@@ -665,10 +671,13 @@ func c20Expect(t *rapid.T, m *model, table string, cols []string, added []byte, 
 	m2.tables[table].rows[key] = row
 	want := m2.canon(true)
 	got, err := openDump(file, true, fullCheck)
-	if err != nil {
+	if err != nil && got == "" {
 		t.Fatalf("database loaded from the dump with a %s: %v", what, err)
 	}
 	if got != want {
 		t.Fatalf("database loaded from the dump with a %s differs from model + added record: %s", what, diffHint(got, want))
+	}
+	if err != nil {
+		t.Fatalf("database loaded from the dump with a %s: %v", what, err)
 	}
 }
